@@ -481,7 +481,12 @@ def replay_behaviour(beh: list[tuple[str, dict[str, Any]]], kind: str) -> tuple[
 # real sockets vs. the in-memory fakes
 
 
-def real_socket_stage(rep: Report, tier: str, seed: int) -> list[dict[str, Any]]:
+def real_socket_stage(rep: Report, tier: str, seed: int) -> tuple[list[dict[str, Any]], list[tuple[int, int, str]]]:
+    """Runs over real loopback TCP / unix sockets (normal loop, small real timeouts), each
+    paired with the same plan on the in-memory fake.  Returns the traces and the pairs
+    (index of the fake run, index of the real run, what to compare); the comparison is made
+    after TLC accepted both (outcomes of a conforming reader do not depend on segmentation,
+    so fake and kernel must agree; a rejected trace is reported as a violation instead)."""
     rnd = random.Random(seed + 4242)
     msgs = [b"\x0a", b"\xab\xcd", b"\x00", bytes(range(256)), rnd.randbytes(4095)]
     chunks = [L.ref_encode(m) for m in msgs]
@@ -501,10 +506,15 @@ def real_socket_stage(rep: Report, tier: str, seed: int) -> list[dict[str, Any]]
         for _ in range(12):
             plans.append((random_plan(rnd, n, True, 30), [L.READ_TO_MS]))
     results: list[dict[str, Any]] = []
-    compared = 0
+    pairs: list[tuple[int, int, str]] = []
 
-    def strip(o: list[tuple[str, int]]) -> list[tuple[str, int]]:
-        return [x for x in o if x[0] != "Timeout"]
+    def put(r: dict[str, Any], fam: str, kind: str, plan: Plan, pol: list[int] | None) -> int:
+        r["feat"] = features(chunks, plan)
+        r["scn"] = {"fam": fam, "kind": kind, "msgs": [m.hex() for m in msgs], "src": "ref",
+                    "plan": [list(op) for op in plan], "policy": pol or [0], "lead": "reader"}
+        r["lens"] = [len(m) for m in msgs]
+        results.append(r)
+        return len(results) - 1
 
     for kind in L.CLIENT_KINDS:
         for plan, pol in plans:
@@ -515,17 +525,8 @@ def real_socket_stage(rep: Report, tier: str, seed: int) -> list[dict[str, Any]]
                 plan = plan + [("E",)]
             fake = L.run_reader(kind, msgs, chunks, plan, pol, "reader")
             real = L.run_real(lambda d, kind=kind, plan=plan, pol=pol: L.real_client_run(kind, msgs, chunks, plan, pol, d))
-            if strip(fake["outcomes"]) != strip(real["outcomes"]):
-                raise Machinery(f"in-memory stream fake and kernel {kind} socket disagree for plan {plan}: "
-                                f"fake {fake['outcomes']} real {real['outcomes']}")
-            nt = sum(1 for op in plan if op[0] == "T")
-            if sum(1 for x in real["outcomes"] if x[0] == "Timeout") < nt:
-                raise Machinery("real socket run: a planned read timeout did not happen")
-            compared += 1
-            real["feat"] = features(chunks, plan)
-            real["scn"] = {"fam": "real-socket", "kind": kind, "plan": [list(op) for op in plan], "policy": pol}
-            real["lens"] = [len(m) for m in msgs]
-            results.append(real)
+            pairs.append((put(fake, "real-socket-twin", kind, plan, pol), put(real, "real-socket", kind, plan, pol),
+                          "client"))
         # the server loop behind a real listening socket
         for plan, _pol in plans:
             plan = [op for op in plan if op[0] not in ("T", "G")]
@@ -533,16 +534,8 @@ def real_socket_stage(rep: Report, tier: str, seed: int) -> list[dict[str, Any]]
                 plan = plan + [("E",)]
             fake = L.run_reader("server", msgs, chunks, plan, [0], "reader")
             real = L.run_real(lambda d, kind=kind, plan=plan: L.real_server_run(kind, msgs, chunks, plan, d))
-            if fake["outcomes"] != real["outcomes"]:
-                raise Machinery(f"in-memory stream fake and kernel {kind} socket disagree (server loop) for plan "
-                                f"{plan}: fake {fake['outcomes']} real {real['outcomes']}")
-            if b"".join(w for _, w in fake["replies"]) != real["raw_replies"]:
-                raise Machinery(f"server loop replies differ between fake and real {kind} socket for plan {plan}")
-            compared += 1
-            real["feat"] = features(chunks, plan)
-            real["scn"] = {"fam": "real-socket-server", "kind": kind, "plan": [list(op) for op in plan]}
-            real["lens"] = [len(m) for m in msgs]
-            results.append(real)
+            pairs.append((put(fake, "real-socket-twin", "server", plan, None),
+                          put(real, "real-socket-server", kind, plan, None), "server"))
         # real client transport <-> real server loop
         small = random_msgs(random.Random(seed + 77), 100, "small")
         for mode, ms in (("lockstep", msgs + small[:20]), ("burst", small)):
@@ -551,9 +544,38 @@ def real_socket_stage(rep: Report, tier: str, seed: int) -> list[dict[str, Any]]
                 tr["scn"] = {"fam": "real-e2e", "kind": kind, "mode": mode, "n": len(ms)}
                 tr["lens"] = [len(m) for m in ms]
                 results.append(tr)
-    rep.extra["real_socket_runs"] = len(results)
-    rep.extra["fake_vs_kernel_comparisons"] = compared
-    return results
+    rep.extra["real_socket_runs"] = sum(1 for r in results if r["kind"].startswith("real-"))
+    return results, pairs
+
+
+def compare_fake_with_kernel(rep: Report, results: list[dict[str, Any]], base: int, pairs: list[tuple[int, int, str]],
+                             verdicts: dict[int, tuple[str, str]]) -> None:
+    def strip(o: list[tuple[str, int]]) -> list[tuple[str, int]]:
+        return [x for x in o if x[0] != "Timeout"]
+
+    compared = skipped = 0
+    for fi, ri, what in pairs:
+        fake, real = results[base + fi], results[base + ri]
+        if verdicts[base + fi][0] != "ok" or verdicts[base + ri][0] != "ok":
+            skipped += 1  # reported as violations; a non-conforming reader may depend on the segmentation
+            continue
+        plan = real["scn"]["plan"]
+        if "real-run-guard-expired" in real["notes"]:
+            raise Machinery(f"real {real['kind']} run stalled for plan {plan}")
+        if what == "client":
+            if strip(fake["outcomes"]) != strip(real["outcomes"]):
+                raise Machinery(f"in-memory stream fake and kernel socket ({real['kind']}) disagree for plan {plan}: "
+                                f"fake {fake['outcomes']} real {real['outcomes']}")
+            if sum(1 for x in real["outcomes"] if x[0] == "Timeout") < sum(1 for op in plan if op[0] == "T"):
+                raise Machinery("real socket run: a planned read timeout did not happen")
+        else:
+            if fake["outcomes"] != real["outcomes"]:
+                raise Machinery(f"in-memory stream fake and kernel socket ({real['kind']}, server loop) disagree for "
+                                f"plan {plan}: fake {fake['outcomes']} real {real['outcomes']}")
+            if b"".join(w for _, w in fake["replies"]) != real["raw_replies"]:
+                raise Machinery(f"server loop replies differ between fake and {real['kind']} for plan {plan}")
+        compared += 1
+    rep.extra["fake_vs_kernel_comparisons"] = {"agreed": compared, "skipped_because_rejected": skipped}
 
 
 # --------------------------------------------------------------------------
@@ -733,7 +755,9 @@ def run(tier: str, seed: int) -> Report:
 
     stage_t["spec_to_code"] = round(_time.time() - _t, 1); _t = _time.time()
     # ---- 4. real sockets (fakes validated against the kernel)
-    results += real_socket_stage(rep, tier, seed)
+    real_base = len(results)
+    real_results, real_pairs = real_socket_stage(rep, tier, seed)
+    results += real_results
     stage_t["real_sockets"] = round(_time.time() - _t, 1); _t = _time.time()
 
     # ---- 5. code -> spec: TLC validates every execution
@@ -745,6 +769,7 @@ def run(tier: str, seed: int) -> Report:
     verdicts = validate(results, rep, "batch", byte_ids)
     stage_t["tlc_validation"] = round(_time.time() - _t, 1)
     rep.extra["stage_seconds"] = stage_t
+    compare_fake_with_kernel(rep, results, real_base, real_pairs, verdicts)
     rep.traces = len(results)
     rep.evaluations = len(results)
     unspecified = {"error_at_end_of_stream_inside_message": 0, "hang_on_open_stream": 0}
@@ -804,7 +829,8 @@ def replay(path: str) -> int:
     bad = 0
     for v in data["violations"]:
         scn = v["detail"]["scenario"]
-        if scn.get("fam") in ("real-socket", "real-socket-server", "real-e2e", "tlc-simulate") or "plan" not in scn:
+        if scn.get("fam") in ("real-socket", "real-socket-server", "real-e2e", "tlc-simulate") or "plan" not in scn \
+                or "policy" not in scn:
             print(f"replay: scenario family {scn.get('fam')} is replayed by re-running the tier; skipped")
             continue
         r = execute(scn)
